@@ -295,7 +295,7 @@ fn build(segs: &[Seg]) -> (Vec<u8>, Vec<usize>) {
     (buf, starts)
 }
 
-fn case_strategy() -> impl Strategy<Value = Case> {
+pub fn case_strategy() -> impl Strategy<Value = Case> {
     (
         prop::collection::vec(seg_strategy(), 0..30),
         any::<u16>(),
@@ -320,7 +320,7 @@ fn case_strategy() -> impl Strategy<Value = Case> {
 
 /// Names whose uncompressed length is exactly around the 255-octet / 127-label
 /// limits, laid out as 1-3 chunks chained by pointers.
-fn boundary_strategy() -> impl Strategy<Value = Case> {
+pub fn boundary_strategy() -> impl Strategy<Value = Case> {
     (
         250usize..=258,
         prop_oneof![Just(1usize), Just(2), Just(3), Just(62), Just(63), 1usize..=63],
